@@ -54,6 +54,10 @@ pub struct Sel {
     pub reach: Option<u32>,
     /// number of M4 shards (of 4096) to explore, in order
     pub m4: Option<usize>,
+    /// the corner slice of M4: all 4-man positions with the white king on h8 (its promotion
+    /// rank) or the black king on h1, the other king at most the given distance away (7 = anywhere:
+    /// 127 of the 4096 king-pair shards)
+    pub m4_corner: Option<i32>,
     pub sanamb: Option<(usize, bool)>,
     pub counters: bool,
     pub material: Option<Vec<u32>>,
@@ -228,6 +232,17 @@ pub fn run_universes(run: &mut Run, sel: &Sel, disagree_idx: usize, check: PosCh
                     }
                 }
                 rec(ctx, &roots[sh], depth.saturating_sub(2), disagree_idx, check);
+            },
+        );
+    }
+    if let Some(maxd) = sel.m4_corner {
+        let dist = |a: usize, b: usize| (file_of(a) - file_of(b)).abs().max((rank_of(a) - rank_of(b)).abs());
+        let shards: Vec<usize> = (0..uni::M4_SHARDS).filter(|sh| (sh / 64 == 63 || sh % 64 == 7) && dist(sh / 64, sh % 64) <= maxd).collect();
+        run.par_shards(
+            &format!("M4-corner (4 men, {} king-pair shards: wK on h8 or bK on h1, kings at most {} apart)", shards.len(), maxd),
+            shards.len(),
+            |ctx, i| {
+                uni::m4(shards[i], &mut |p| visit(ctx, p, disagree_idx, check));
             },
         );
     }
